@@ -59,7 +59,7 @@ type progResult struct {
 var qidSeq uint64 = 5_000_000
 
 var (
-	progMu     sync.Mutex
+	progMu         sync.Mutex
 	lastProgResult *progResult
 )
 
